@@ -78,6 +78,16 @@ CLAIMED = {
         "note": _NOTE + " E3 checks the generated def against its spec and records where inspect.Signature.bind deviates from a real call (it does in 3.12: positional-only names passed into **kwargs).",
         "technique": "CrossHair symbolic execution + z3; differential against real CPython calls inside each path",
     },
+    "C14": {
+        "design_ref": "DESIGN.md section 5 C14",
+        "text": ("Bounded symbolic execution of unite_values / MultiValuedValue equality and hashing / substitute_typevars / can_assign "
+                 "on all ordered pairs of 14 (quick) / 18 (thorough) value shapes and on triples: idempotence, commutativity, "
+                 "associativity, no nesting, Never identity, the union accepts each operand and accepts exactly what an operand "
+                 "accepts, equal values hash equal, substitution is the identity without type variables, removes every occurrence "
+                 "and commutes with uniting - for every payload in the stated range."),
+        "note": _NOTE + " The real hash functions run (no coarse-hash stub), therefore payloads are bounded to [0,1] (quick) / [-2,2] (thorough).",
+        "technique": "CrossHair symbolic execution + z3 of the algebraic laws on the real Value classes",
+    },
 }
 
 _PENDING = "harness not landed yet in this commit (build in progress; see DESIGN.md section 9)"
